@@ -7,6 +7,10 @@ mod defaults;
 mod origin;
 mod sched;
 mod halflock;
+mod regconc;
+
+#[global_allocator]
+static GLOBAL: sched::CountingAlloc = sched::CountingAlloc;
 
 fn main() {
     let args: Vec<String> = std::env::args().collect();
@@ -16,6 +20,7 @@ fn main() {
         "defaults" => defaults::main(),
         "origin" => origin::main(),
         "halflock" => halflock::main(),
+        "regconc" => regconc::main(),
         _ => {
             eprintln!("usage: harness <registry>");
             2
